@@ -307,7 +307,7 @@ PROPS = {
     },
     "C05": {
         "level": "proof",
-        "lean_targets": ["LP.Props.C05", "LP.Props.C03Fp", "LP.Props.C05ModP", "LP.Props.C05FpBasic", "LP.Props.C05FpDiv", "LP.Props.C05FpIrr", "LP.Props.C05CertModP"],
+        "lean_targets": ["LP.Props.C05", "LP.Props.C03Fp", "LP.Props.C05ModP", "LP.Props.C05FpBasic", "LP.Props.C05FpDiv", "LP.Props.C05FpIrr", "LP.Props.C05CertModP", "LP.Props.C05Unique"],
         "harnesses": [{"name": "h_factor", "quick": 600, "thorough": 6000}],
         "select": lambda t: t[1] == "fac",
         "nontrivial": lambda t, r: True,
